@@ -2,6 +2,7 @@ package main
 
 import (
 	"fmt"
+	"os"
 	"go/ast"
 	"go/token"
 	"go/types"
@@ -18,8 +19,9 @@ import (
 // moves repeated statements into such a closure would otherwise hide the state
 // of the loop from them. Conditions: defined once with := (or var =) from a
 // function literal without results, never reassigned, every use is the callee
-// of a call that is a statement of its own (not go/defer), arguments are simple
-// operands, the body has no return statement and no label, the closure does
+// of a call that is a statement of its own (not go/defer) — or, for a closure
+// with results, the sole operand of a return statement —, arguments are bound to
+// fresh variables first, the body has no return statement (unless it has results) and no label, the closure does
 // not call itself, and every free name of the body means the same thing at
 // each call site.
 func closureRound(pkgs []*packages.Package, overlay map[string][]byte) (map[string][]byte, []string) {
@@ -80,10 +82,10 @@ func closureRound(pkgs []*packages.Package, overlay map[string][]byte) (map[stri
 				})
 				for _, df := range defs {
 					lit := df.lit
-					if lit.Type.Results != nil && len(lit.Type.Results.List) > 0 {
-						continue
-					}
-					// the body: no return, no label, no use of itself
+					// a closure with results is only substituted where it is returned at once
+					// (`return abort(err)`): its own return statements then return from the caller
+					hasResults := lit.Type.Results != nil && len(lit.Type.Results.List) > 0
+					// the body: no return (unless hasResults), no label, no use of itself, no defer
 					okBody := true
 					ast.Inspect(lit.Body, func(n ast.Node) bool {
 						switch x := n.(type) {
@@ -91,7 +93,11 @@ func closureRound(pkgs []*packages.Package, overlay map[string][]byte) (map[stri
 							if x != lit {
 								return false
 							}
-						case *ast.ReturnStmt, *ast.LabeledStmt:
+						case *ast.ReturnStmt:
+							if !hasResults {
+								okBody = false
+							}
+						case *ast.DeferStmt, *ast.LabeledStmt:
 							okBody = false
 						case *ast.Ident:
 							if pkg.TypesInfo.Uses[x] == df.obj {
@@ -101,11 +107,14 @@ func closureRound(pkgs []*packages.Package, overlay map[string][]byte) (map[stri
 						return true
 					})
 					if !okBody {
+						if os.Getenv("SERVCHECK_DEBUG_NORM") != "" {
+							fmt.Fprintln(os.Stderr, "closure", df.obj.Name(), "not inlined:", "body shape")
+						}
 						continue
 					}
 					// every use is `x(args)` as a statement
 					type site struct {
-						stmt *ast.ExprStmt
+						stmt ast.Stmt
 						call *ast.CallExpr
 					}
 					var sites []site
@@ -123,9 +132,22 @@ func closureRound(pkgs []*packages.Package, overlay map[string][]byte) (map[stri
 						}
 						if len(stack) >= 3 {
 							if call, ok := stack[len(stack)-2].(*ast.CallExpr); ok && call.Fun == ast.Expr(id) {
-								if es, ok := stack[len(stack)-3].(*ast.ExprStmt); ok && es.X == ast.Expr(call) {
+								if es, ok := stack[len(stack)-3].(*ast.ExprStmt); ok && es.X == ast.Expr(call) && !hasResults {
 									sites = append(sites, site{es, call})
 									return true
+								}
+								if rs, ok := stack[len(stack)-3].(*ast.ReturnStmt); ok && hasResults && len(rs.Results) == 1 && rs.Results[0] == ast.Expr(call) {
+									// not inside another function literal than the one we are in
+									inLit := false
+									for _, anc := range stack[:len(stack)-3] {
+										if _, isLit := anc.(*ast.FuncLit); isLit {
+											inLit = true
+										}
+									}
+									if !inLit {
+										sites = append(sites, site{rs, call})
+										return true
+									}
 								}
 							}
 						}
@@ -133,6 +155,9 @@ func closureRound(pkgs []*packages.Package, overlay map[string][]byte) (map[stri
 						return true
 					})
 					if !okUses || len(sites) == 0 {
+						if os.Getenv("SERVCHECK_DEBUG_NORM") != "" {
+							fmt.Fprintln(os.Stderr, "closure", df.obj.Name(), "not inlined:", "uses")
+						}
 						continue
 					}
 					// parameters: simple operands only
@@ -154,13 +179,23 @@ func closureRound(pkgs []*packages.Package, overlay map[string][]byte) (map[stri
 						}
 					}
 					if !okParams {
+						if os.Getenv("SERVCHECK_DEBUG_NORM") != "" {
+							fmt.Fprintln(os.Stderr, "closure", df.obj.Name(), "not inlined:", "params")
+						}
 						continue
 					}
 					// free names mean the same at every call site
 					okNames := true
+					selNames := map[*ast.Ident]bool{} // x.Sel is resolved through x
+					ast.Inspect(lit.Body, func(n ast.Node) bool {
+						if se, ok := n.(*ast.SelectorExpr); ok {
+							selNames[se.Sel] = true
+						}
+						return true
+					})
 					ast.Inspect(lit.Body, func(n ast.Node) bool {
 						id, ok := n.(*ast.Ident)
-						if !ok {
+						if !ok || selNames[id] {
 							return true
 						}
 						obj := pkg.TypesInfo.Uses[id]
@@ -186,6 +221,9 @@ func closureRound(pkgs []*packages.Package, overlay map[string][]byte) (map[stri
 						return true
 					})
 					if !okNames {
+						if os.Getenv("SERVCHECK_DEBUG_NORM") != "" {
+							fmt.Fprintln(os.Stderr, "closure", df.obj.Name(), "not inlined:", "names")
+						}
 						continue
 					}
 					body := string(src[off(lit.Body.Lbrace):off(lit.Body.Rbrace)+1])
@@ -198,9 +236,6 @@ func closureRound(pkgs []*packages.Package, overlay map[string][]byte) (map[stri
 						}
 						var pre strings.Builder
 						for i, a := range st.call.Args {
-							if !isSimpleOperand(a) {
-								okSites = false
-							}
 							fmt.Fprintf(&pre, "var %s %s = %s\n_ = %s\n", pnames[i], ptypes[i], string(src[off(a.Pos()):off(a.End())]), pnames[i])
 						}
 						text := body
@@ -210,6 +245,9 @@ func closureRound(pkgs []*packages.Package, overlay map[string][]byte) (map[stri
 						siteEdits = append(siteEdits, edit{off(st.stmt.Pos()), off(st.stmt.End()), text})
 					}
 					if !okSites {
+						if os.Getenv("SERVCHECK_DEBUG_NORM") != "" {
+							fmt.Fprintln(os.Stderr, "closure", df.obj.Name(), "not inlined:", "sites")
+						}
 						continue
 					}
 					edits = append(edits, siteEdits...)
